@@ -188,7 +188,7 @@ func checkNewOrUpdateFlagSet(le *LeafEntry) bool {
 }
 
 func checkNotOwner(le *LeafEntry, owner string) bool {
-	return le.Owner() != owner
+	return le != nil && le.Owner() != owner
 }
 
 // GetHighesNewUpdated returns the LeafEntry with the highes priority
